@@ -83,23 +83,32 @@ def Axis.count (a : Axis) (offset : Bool) : Nat :=
 def numAddAxis (s : Spec) : Nat :=
   ((List.range s.begin.length).filter fun i => !bit s.ellipsisMask i && bit s.newAxisMask i).length
 
-/-- Walk over the effective dimensions `i = 0 …` (fuel = number of effective dimensions).
-    `pos` = position in the specification, `dims` = input dimensions not yet consumed. -/
-def build (s : Spec) (inRank : Nat) : Nat → Nat → Nat → List Nat → Except String (List Axis)
-  | 0, _, _, dims => if dims.isEmpty then pure [] else throw "strided_slice: dimensions left over"
-  | fuel + 1, i, pos, dims =>
+/-- Walk over the effective dimensions `i = 0 …` (fuel = number of effective dimensions, one per step).
+    `pos` = position in the specification, `dims` = input dimensions not yet consumed, `ell` = dimensions the ellipsis
+    still has to take. -/
+def build (s : Spec) (inRank : Nat) : Nat → Nat → Nat → List Nat → Nat → Except String (List Axis)
+  | 0, _, _, dims, ell => if dims.isEmpty && ell == 0 then pure [] else throw "strided_slice: dimensions left over"
+  | fuel + 1, i, pos, dims, ell + 1 =>
+    -- inside the ellipsis: a full input dimension
+    match dims with
+    | [] => throw "strided_slice: ellipsis"
+    | d :: ds => do
+      let rest ← build s inRank fuel (i + 1) pos ds ell
+      pure (Axis.full d :: rest)
+  | fuel + 1, i, pos, dims, 0 =>
     let n := s.begin.length
     if pos < n ∧ bit s.ellipsisMask pos then
-      -- the ellipsis expands to `max 1 (…)` effective dimensions, each a full input dimension
+      -- the ellipsis expands to `max 1 (…)` effective dimensions, each a full input dimension: the first one now
       let total := inRank + numAddAxis s
       let width := max 1 (min (1 + numAddAxis s + inRank - n) (total - i))
-      if width > fuel + 1 ∨ width > dims.length then throw "strided_slice: ellipsis" else
-      do
-        let rest ← build s inRank (fuel + 1 - width) (i + width) (pos + 1) (dims.drop width)
-        pure ((dims.take width).map Axis.full ++ rest)
+      match dims with
+      | [] => throw "strided_slice: ellipsis"
+      | d :: ds => do
+        let rest ← build s inRank fuel (i + 1) (pos + 1) ds (width - 1)
+        pure (Axis.full d :: rest)
     else if pos < n ∧ bit s.newAxisMask pos then
       do
-        let rest ← build s inRank fuel (i + 1) (pos + 1) dims
+        let rest ← build s inRank fuel (i + 1) (pos + 1) dims 0
         pure (Axis.inserted :: rest)
     else
       match dims with
@@ -107,19 +116,17 @@ def build (s : Spec) (inRank : Nat) : Nat → Nat → Nat → List Nat → Excep
       | d :: ds =>
         if pos ≥ n then
           do
-            let rest ← build s inRank fuel (i + 1) (pos + 1) ds
+            let rest ← build s inRank fuel (i + 1) (pos + 1) ds 0
             pure (Axis.full d :: rest)
         else
           match s.begin[pos]?, s.end_[pos]?, s.strides[pos]? with
           | some b, some e, some st =>
             if st = 0 then throw "strided_slice: stride 0" else
             do
-              let rest ← build s inRank fuel (i + 1) (pos + 1) ds
+              let rest ← build s inRank fuel (i + 1) (pos + 1) ds 0
               pure ({ dim := d, start := b, stop := e, stride := st, beginMask := bit s.beginMask pos,
                       endMask := bit s.endMask pos, shrink := bit s.shrinkAxisMask pos } :: rest)
           | _, _, _ => throw "strided_slice: begin / end / strides differ in length"
-termination_by fuel => fuel
-decreasing_by all_goals omega
 
 /-- count of set ellipsis bits inside the specification (the reference accepts at most one) -/
 def ellipsisCount (s : Spec) : Nat := ((List.range s.begin.length).filter fun i => bit s.ellipsisMask i).length
@@ -129,7 +136,7 @@ def axes (s : Spec) (shape : List Nat) : Except String (List Axis) :=
   if s.end_.length ≠ s.begin.length ∨ s.strides.length ≠ s.begin.length then
     throw "strided_slice: begin / end / strides differ in length"
   else if ellipsisCount s > 1 then throw "strided_slice: more than one ellipsis"
-  else build s shape.length (shape.length + numAddAxis s) 0 0 shape
+  else build s shape.length (shape.length + numAddAxis s) 0 0 shape 0
 
 structure Resolved where
   /-- effective input shape (input shape with the new axes inserted) -/
